@@ -47,11 +47,14 @@ static void *app_main(void *arg)
 		VP_STORE(a->insec[t->idx], 1);
 		__atomic_fetch_add(&a->started, 1, __ATOMIC_SEQ_CST);
 		__atomic_fetch_add(&a->holding, 1, __ATOMIC_SEQ_CST);
-		/* bounded (about 0.5 s): a call_rcu helper that started a grace period
+		/* bounded in time (0.4 s): a call_rcu helper that started a grace period
 		 * before PAUSE was requested must be able to finish it, otherwise the
-		 * scenario itself (not the library) would deadlock in before_fork */
-		for (int it = 0; it < 2000 && !VP_LOAD(a->hold_release) && !VP_LOAD(a->stop); it++)
-			usleep(200);
+		 * scenario itself (not the library) would stall in before_fork */
+		{
+			uint64_t t0 = vp_now_ns();
+			while (!VP_LOAD(a->hold_release) && !VP_LOAD(a->stop) && vp_now_ns() - t0 < 400000000ULL)
+				usleep(200);
+		}
 		VP_STORE(a->insec[t->idx], 0);
 		rcu_read_unlock();
 		__atomic_fetch_sub(&a->holding, 1, __ATOMIC_SEQ_CST);
